@@ -6,13 +6,15 @@ import discharness
 LEAN_MODULES = ["PyAirtouch.Props.C18"]
 LEVEL = "proof"
 
-NAMES = [b"Home", b"My, Home", b"a,b,c", "Café".encode(), "\U0001F3E0 house".encode(), b"", b" ", b",", b"x" * 40]
+NAMES = [b"Home", b"My, Home", b"a,b,c", "Café".encode(), "\U0001F3E0 house".encode(), b"", b" ", b",", b"x" * 40,
+         # user-chosen text that repeats the protocol's own marker words
+         b"AirTouch5,Upstairs", b"Home,AirTouch5,Granny flat", b"AirTouch5", b"AirTouch4,old wing", b",AirTouch5,"]
 HOSTS = [b"192.168.1.5", b"10.0.0.7", b"console.local", b"airtouch-console-livingroom.home.example.org", b"fe80::1ff:fe23:4567:890a%eth0", b"h" * 200]
 
 
 def valid(gen, rng):
     host = rng.choice(HOSTS)
-    serial = rng.choice([b"AT5SERIAL01", b"00:11:22:33:44:55", b"S", b"SERIAL-0123456789-ABCDEFGHIJKLMNOP", b"s" * 300])
+    serial = rng.choice([b"AT5SERIAL01", b"00:11:22:33:44:55", b"S", b"SERIAL-0123456789-ABCDEFGHIJKLMNOP", b"s" * 300, b"AirTouch%d" % gen])
     aid = rng.choice([b"12345678", b"ID", b"0", b"9" * 40])
     if gen == 4:
         return b",".join([host, serial, b"AirTouch4", aid])
